@@ -98,9 +98,9 @@ type C18EmbDeep struct {
 	Y string `json:"y"`
 }
 type C18Slash struct {
-	First  C18Inner  `json:"a/b"`
-	Second *C18Inner `json:"c~d,omitempty"`
-	Third  C18Inner  `json:"e f"`
+	First  C18Inner   `json:"a/b"`
+	Second *C18Inner  `json:"c~d,omitempty"`
+	Third  C18Inner   `json:"e f"`
 	Fourth []C18Inner `json:"g%41"`
 }
 type C18Deep struct {
@@ -121,16 +121,16 @@ type C18Deep struct {
 	} `json:"l1"`
 }
 type C18Times struct {
-	At    time.Time     `json:"at"`
-	AtP   *time.Time    `json:"atp,omitempty"`
-	Dur   time.Duration `json:"dur"`
-	IP    net.IP        `json:"ip"`
-	Blob  []byte        `json:"blob"`
-	Blobs [][]byte      `json:"blobs"`
-	Raw   json.RawMessage `json:"raw"`
-	Any   interface{}   `json:"any"`
-	Num   json.Number   `json:"num"`
-	Quoted int64        `json:"quoted,string"`
+	At     time.Time       `json:"at"`
+	AtP    *time.Time      `json:"atp,omitempty"`
+	Dur    time.Duration   `json:"dur"`
+	IP     net.IP          `json:"ip"`
+	Blob   []byte          `json:"blob"`
+	Blobs  [][]byte        `json:"blobs"`
+	Raw    json.RawMessage `json:"raw"`
+	Any    interface{}     `json:"any"`
+	Num    json.Number     `json:"num"`
+	Quoted int64           `json:"quoted,string"`
 }
 
 type c18Corpus struct {
@@ -236,9 +236,9 @@ func c18Types(depth int) []c18Type {
 }
 
 type c18Tag struct {
-	name string
-	tag  func(leaf string) string // the struct tag for a field of that leaf kind ("" = no tag)
-	only0 bool                    // only instance variant 0 satisfies the user's own constraints
+	name  string
+	tag   func(leaf string) string // the struct tag for a field of that leaf kind ("" = no tag)
+	only0 bool                     // only instance variant 0 satisfies the user's own constraints
 }
 
 var c18Tags = []c18Tag{
